@@ -891,3 +891,39 @@ def deep_calls(F, body, ops, depth=0, seen=None, follow_mutarg=False):
                     seen.add(k)
                     out.extend(deep_calls(F, pb, [op], depth + 1, seen, follow_mutarg))
     return out
+
+
+# ------------------------------------------------------ enum constant operands
+def enum_const(F, body, op, depth=0):
+    """Variant name when the operand is (a reference to) a constant unit enum variant:
+    a promoted `&Enum::Variant`, or a local assigned such an aggregate."""
+    if depth > 6:
+        return None
+    if 'c' in op:
+        c = op['c']
+        if 'promoted' in c:
+            root = body.d.get('promoted_of') or body.key
+            pb = F.bodies.get('%s::promoted[%d]' % (root, c['promoted']))
+            if pb is None:
+                return None
+            for st in pb.stmts(0):
+                rv = st['rv']
+                if rv['k'] == 'agg' and 'adt' in rv and not rv['ops']:
+                    return rv['variant']
+        return None
+    l = op_local(op)
+    if l is None:
+        return None
+    _, d = resolve_copy(body, l)
+    if d is None or d.kind != 'assign':
+        return None
+    rv = d.rv
+    if rv['k'] == 'agg' and 'adt' in rv and not rv['ops'] and 'closure' not in rv:
+        return rv['variant']
+    if rv['k'] == 'use':
+        return enum_const(F, body, rv['a'], depth + 1)
+    if rv['k'] == 'ref' and not rv['pl']['p']:
+        return enum_const(F, body, {'cp': rv['pl']}, depth + 1)
+    if rv['k'] == 'ref' and rv['pl']['p'] == ['*']:
+        return enum_const(F, body, {'cp': {'l': rv['pl']['l'], 'p': []}}, depth + 1)
+    return None
